@@ -701,18 +701,18 @@ fn prefix() -> impl Strategy<Value = Vec<Op>>
         2 => Just(vec![]),                                                                      // fresh
         2 => Just(vec![b.clone()]),                                                             // fully built
         3 => Just(vec![b.clone(), Op::Clean { goal: None }]),                                   // cleaned
-        2 => (any::<u16>(), 0u8..5).prop_map(|(leaf, content)| vec![Op::Build { goal: None }, Op::Edit { leaf, content }]),
+        2 => (any::<u16>(), 0u8..gen::N_CONTENTS).prop_map(|(leaf, content)| vec![Op::Build { goal: None }, Op::Edit { leaf, content }]),
         2 => any::<u16>().prop_map(|rule| vec![Op::Build { goal: None }, Op::Retag { rule }]),
-        3 => (any::<u16>(), 0u8..5).prop_map(|(leaf, content)| vec![Op::Build { goal: None }, Op::Edit { leaf, content }, Op::Build { goal: None }, Op::Revert { leaf }]),
-        2 => (any::<u16>(), 0u8..5).prop_map(|(leaf, content)| vec![Op::Build { goal: None }, Op::Edit { leaf, content }, Op::Build { goal: None }, Op::Clean { goal: None }, Op::Revert { leaf }]),
+        3 => (any::<u16>(), 0u8..gen::N_CONTENTS).prop_map(|(leaf, content)| vec![Op::Build { goal: None }, Op::Edit { leaf, content }, Op::Build { goal: None }, Op::Revert { leaf }]),
+        2 => (any::<u16>(), 0u8..gen::N_CONTENTS).prop_map(|(leaf, content)| vec![Op::Build { goal: None }, Op::Edit { leaf, content }, Op::Build { goal: None }, Op::Clean { goal: None }, Op::Revert { leaf }]),
         // one rule displaces content that another rule wants back in the same build
-        3 => (any::<u16>(), 0u8..5, any::<u16>(), 0u8..5).prop_map(|(l1, c1, l2, c2)| vec![Op::Build { goal: None }, Op::Edit { leaf: l1, content: c1 }, Op::Build { goal: None },
+        3 => (any::<u16>(), 0u8..gen::N_CONTENTS, any::<u16>(), 0u8..gen::N_CONTENTS).prop_map(|(l1, c1, l2, c2)| vec![Op::Build { goal: None }, Op::Edit { leaf: l1, content: c1 }, Op::Build { goal: None },
             Op::Edit { leaf: l2, content: c2 }, Op::Revert { leaf: l1 }]),
-        3 => (any::<u16>(), 0u8..5, any::<u16>(), 0u8..5).prop_map(|(l1, c1, l2, c2)| vec![Op::Build { goal: None }, Op::Edit { leaf: l1, content: c1 }, Op::Build { goal: None },
+        3 => (any::<u16>(), 0u8..gen::N_CONTENTS, any::<u16>(), 0u8..gen::N_CONTENTS).prop_map(|(l1, c1, l2, c2)| vec![Op::Build { goal: None }, Op::Edit { leaf: l1, content: c1 }, Op::Build { goal: None },
             Op::Revert { leaf: l1 }, Op::Edit { leaf: l2, content: c2 }]),
         2 => (any::<u16>(), any::<u16>()).prop_map(|(a, b)| vec![Op::Build { goal: None }, Op::Swap { a, b }, Op::Build { goal: None }, Op::Swap { a, b }]),
         // a stale file at a target path whose bytes the cache already holds
-        2 => (any::<u16>(), 0u8..5).prop_map(|(t, content)| vec![Op::Build { goal: None }, Op::Tamper { t, content }, Op::Build { goal: None }, Op::Tamper { t, content }]),
+        2 => (any::<u16>(), 0u8..gen::N_CONTENTS).prop_map(|(t, content)| vec![Op::Build { goal: None }, Op::Tamper { t, content }, Op::Build { goal: None }, Op::Tamper { t, content }]),
         // a cleaned workspace whose output directory the user removed
         2 => any::<u16>().prop_map(|d| vec![Op::Build { goal: None }, Op::Clean { goal: None }, Op::RemoveDir { d }]),
         3 => gen::ops(OpMix { rule_edits: true, ruler_dir_damage: false, cleans: true, delete_leaf: false, swaps: 1, dir_ops: 1, orphan: false }, 6),
